@@ -234,12 +234,13 @@ def gen_program(r, pid, mask_rel_member=False):
                 body.insert(r.randint(0, len(body) - (1 if body and body[-1]["op"] == "raise" else 0)), st)
         if wrapper and not fcalled and r.random() < 0.8 and (not body or body[-1]["op"] != "raise"):
             body.append({"op": "fcall"})
-        if entry is not None and r.random() < (0.7 if heavy else 0.1):
-            # an entry point (trigger function / job) that takes a task name: whoever takes the same name of the same context later
-            # cancels it wherever it is suspended then - inside a function of another file, inside clean-up-protected code, ...
+        if heavy and entry is None and body and body[-1]["op"] != "raise":
+            # functions that stay suspended for a while / take a task name of THEIR file's name space on behalf of whoever calls them
             nloc = len([t for t in body if t["op"] == "loc"])
-            body.insert(r.randint(nloc, min(len(body), nloc + 1)), {"op": "unique", "n": UNIQ[0] if r.random() < 0.8 else UNIQ[1], "killme": r.random() < 0.2})
-
+            if r.random() < 0.6:
+                body.insert(r.randint(nloc, len(body)), {"op": "sleep", "t": 1024 * r.randint(1, 8)})
+            if r.random() < 0.25:
+                body.insert(r.randint(nloc, len(body)), {"op": "unique", "n": UNIQ[0], "killme": r.random() < 0.3})
         def fin_code():
             """clean-up code: simple statements that observe / use the name resolution state (never suspends, never raises)."""
             fin = []
@@ -260,6 +261,18 @@ def gen_program(r, pid, mask_rel_member=False):
                     fin.append({"op": "readattr", "m": r.choice(aliases), "x": r.choice(DATA), "tag": tag(c, fname + ".fra")})
             return fin or [{"op": "getctx", "tag": tag(c, fname + ".fgc")}]
 
+        if entry is not None and r.random() < (0.85 if heavy else 0.1):
+            # an entry point (trigger function / job) that takes a task name: whoever takes the same name of the same context later
+            # cancels it wherever it is suspended then - inside a function of another file, inside clean-up-protected code, ...
+            nloc = len([t for t in body if t["op"] == "loc"])
+            at = r.randint(nloc, min(len(body), nloc + 1))
+            body.insert(at, {"op": "unique", "n": UNIQ[0] if r.random() < 0.9 else UNIQ[1], "killme": r.random() < 0.1})
+            if heavy and r.random() < 0.8:
+                # ... and then runs a function (of another file, if a module object is at hand) under clean-up code of its own
+                via = r.choice(aliases) if aliases and r.random() < 0.7 else ""
+                st = {"op": "call", "f": r.choice(FUNCS), "via": via} if r.random() < 0.6 else \
+                    {"op": "trycall", "f": r.choice(FUNCS), "via": via, "tag": tag(c, fname + ".t")}
+                body.insert(r.randint(at + 1, len(body) - (1 if body[-1]["op"] == "raise" else 0)), {"op": "try", "body": [st], "fin": fin_code()})
         # try / finally around any stretch of the body (after the local assignments), nested or one after the other
         for _ in range(r.choice([0, 1, 1, 2] if heavy else [0, 0, 0, 1])):
             nloc = len([t for t in body if t["op"] == "loc"])
@@ -367,7 +380,7 @@ def gen_program(r, pid, mask_rel_member=False):
                 names.append(j)
         # trigger functions: uniquely named (nothing calls them: tasks are only created in the event phase)
         if c in autos:
-            for _ in range(r.choice([0, 1, 1, 2])):
+            for _ in range(r.choice([1, 2, 2, 2] if heavy else [0, 1, 1, 2])):
                 trig = "ev%d" % (len(events) + 1)
                 events.append(trig)
                 tname = "t%d" % len(events)
@@ -823,7 +836,8 @@ def validate(ctx, cases, label, report=True, split=1):
                 code = "file-level" if len(t) < 3 else "job" if t[1] in JOBS else "closure" if t[1][1:] in DECOS and t[1][0] == "w" else \
                     "decorator" if t[1] in DECOS else "trigger-function" if t[1][0] == "t" and t[1][1:].isdigit() else "function"
                 kind = {"gc": "get_global_ctx", "lc": "list_global_ctx", "wx": "wait_until-expression", "r": "read", "ra": "read-through-module",
-                        "t": "call-outcome"}.get(t[-1].rstrip("0123456789"), "observation")
+                        "t": "call-outcome", "fr": "finally.read", "fgc": "finally.get_global_ctx", "flc": "finally.list_global_ctx",
+                        "fra": "finally.read-through-module"}.get(t[-1].rstrip("0123456789"), "observation")
                 sig["at"] = code + "." + kind
             for fl in rj["why"]:
                 sig[fl] = True
